@@ -25,17 +25,17 @@ INV_PROP = {
     "Bounded": "C09", "SendNeverWaits": "C09", "TypeOK": "C06",
 }
 EV_PROP = {
-    "Send": "C09", "TrySend": "C09", "SendRet": "C09",
+    "SendCall": "C09", "Send": "C09", "TrySend": "C09", "SendRet": "C09",
     "Take": "C06", "TakeEmpty": "C06", "Call": "C06", "Ret": "C06",
     "FlushReq": "C07", "Fired": "C07", "FlushRet": "C07",
-    "CallerPanicked": "C08", "Wait": "C08", "Exit": "C08", "End": "C08", "Closing": "C08", "Closed": "C08", "Reset": "C08",
+    "CallerPanicked": "C08", "Wait": "C08", "Exit": "C08+C06", "End": "C08+C06", "Closing": "C08", "Closed": "C08", "Reset": "C08",
 }
 ACTIONS = ["Send", "TrySend", "WhenEmpty", "SendWake", "WhenFlushed", "FlushRet", "DropSender",
            "RecvTake", "IdleWake", "AttemptEnd", "RetryWake"]
 
-QUICK = ["q1", "q2", "kill"]
-QUICK_EVERY = {"q1": 2, "q2": 5, "kill": 3}     # quick: seeded sample of the transitions
-THOROUGH = ["q1", "q2", "kill", "t3", "t1", "t2", "t1sim", "t2sim"]
+QUICK = ["q1", "q2", "q3", "kill"]
+QUICK_EVERY = {"q1": 2, "q2": 5, "q3": 1, "kill": 3}     # quick: seeded sample of the transitions
+THOROUGH = ["q1", "q2", "q3", "kill", "t3", "t1", "t2", "t1sim", "t2sim"]
 SIM_BEHAVIOURS = 6000     # per worker
 NSHARDS = 12
 
@@ -45,7 +45,7 @@ def run(ctx, prop):
     drift = ctx.cov["drift"]
 
     def report(p, what, replay, sig=None):
-        if p == prop:
+        if prop in p.split("+"):
             ctx.violation(what, replay, signature=sig)
         else:
             other.append("%s: %s" % (p, what[:200]))
@@ -79,7 +79,7 @@ def run(ctx, prop):
                    "Batcher.tla (%s): invariant %s violated by the design" % (name, r.violated),
                    {"kind": "tlc-counterexample", "counterexample": r.counterexample[:80]})
             continue
-        must = [a for a in ACTIONS if not (a in ("WhenEmpty", "SendWake") and name in ("q2", "t3"))
+        must = [a for a in ACTIONS if not (a in ("WhenEmpty", "SendWake") and name in ("q2", "q3", "t3"))
                 and not (a == "TrySend" and name == "t3")]
         if not sim:
             ctx.require_actions(r, must, name)
@@ -124,12 +124,13 @@ def run(ctx, prop):
                     t = json.loads(line)
                     t["config"] = name
                     all_traces.append(t)
-        with open(cases) as f:
-            first = f.readline()
-            for _ in range(min(n - 2, 3000)):
-                f.readline()
-            mid = f.readline() if n > 2 else first
-        ctx.sample({"config": name, "schedule": [[s["who"], s["act"]] for s in json.loads(mid)["steps"]]})
+        if n > 0:
+            with open(cases) as f:
+                first = f.readline()
+                for _ in range(min(n - 2, 3000)):
+                    f.readline()
+                mid = f.readline() if n > 2 else first
+            ctx.sample({"config": name, "schedule": [[s["who"], s["act"]] for s in json.loads(mid)["steps"]]})
         os.remove(cases)
     import time as _t
     vlib.log("[replay] %d schedules forced on the real code, %d traces kept for level A (%d divergent)" % (
